@@ -20,18 +20,23 @@ def dump_mir(scratch, crates):
     env = dict(ENV, CARGO_TARGET_DIR=os.path.join(CACHE, "mir-target"))
     os.makedirs(CACHE, exist_ok=True)
     t0 = time.time()
-    for c in [c for c in ORDER if c in crates]:
-        for flag, dst in (("mir", f"mir_{c}.txt"), ("expanded", f"exp_{c}.rs"), ("stable-mir", f"smir_{c}.txt")):
-            src = os.path.join(repo, "crates", c, "src", "lib.rs")
-            os.utime(src, None)
-            cmd = ["cargo", "+nightly", "rustc", "--offline", "-p", f"essential-{c}", "--lib", "--",
-                   f"-Zunpretty={flag}"]
-            if flag in ("mir", "stable-mir"):
-                cmd += ["-C", "debug-assertions=off", "-C", "overflow-checks=on"]
-            p = subprocess.run(cmd, cwd=repo, env=env, capture_output=True, text=True)
-            if p.returncode != 0 or not p.stdout.strip():
-                raise Inconclusive(f"MIR dump of essential-{c} failed (tree does not build on nightly?):\n" + p.stderr[-1500:])
-            open(os.path.join(out, dst), "w").write(p.stdout)
+    # the dependency cache (one cargo target directory) is shared by all runs: concurrent dumps of different scratch copies race on
+    # cargo's dep-info files, so the dump phase is serialised across processes
+    import fcntl
+    with open(os.path.join(CACHE, "mir.lock"), "w") as lk:
+        fcntl.flock(lk, fcntl.LOCK_EX)
+        for c in [c for c in ORDER if c in crates]:
+            for flag, dst in (("mir", f"mir_{c}.txt"), ("expanded", f"exp_{c}.rs"), ("stable-mir", f"smir_{c}.txt")):
+                src = os.path.join(repo, "crates", c, "src", "lib.rs")
+                os.utime(src, None)
+                cmd = ["cargo", "+nightly", "rustc", "--offline", "-p", f"essential-{c}", "--lib", "--",
+                       f"-Zunpretty={flag}"]
+                if flag in ("mir", "stable-mir"):
+                    cmd += ["-C", "debug-assertions=off", "-C", "overflow-checks=on"]
+                p = subprocess.run(cmd, cwd=repo, env=env, capture_output=True, text=True)
+                if p.returncode != 0 or not p.stdout.strip():
+                    raise Inconclusive(f"MIR dump of essential-{c} failed (tree does not build on nightly?):\n" + p.stderr[-1500:])
+                open(os.path.join(out, dst), "w").write(p.stdout)
     return out, time.time() - t0
 
 
